@@ -8,7 +8,7 @@ from vlib.core import cz, copt, clist, cbool
 
 MANIFEST = dict(
     text='Theorems (Coq, all histories): restart_state.step as translated from common.py on every run equals the model; 0 <= R <= max_restarts; inside one window exactly the remaining budget is admitted and the next step raises; a step after the window expired or after an ack starts afresh. Correspondence of the real restart_state on random histories. Pool level (Proofs/PoolSize.v): the pool\'s limiter in every reachable state IS Restart.run on the pool\'s own history (one step per charged replacement, one ack per acknowledgement); only passes and acknowledgements touch it; window budget and the raising pass at pool level. The start-up phase and the supervisor thread are validated on real pools (restart_budget scenarios).',
-    note='Trusted: Coq kernel, translator, PyVal semantics; integer clock (float rounding not modelled); monotonic() != 0.',
+    note='Trusted: Coq kernel, translator, PyVal semantics; integer clock (float rounding not modelled); monotonic() != 0. Start-up burst: theorem C11_startup_burst (budget 10 per slot inside one window, then raise), structural facts about Supervisor.body, and the real Supervisor.body over fake workers and an exact clock compared with Restart.burst in Coq.',
     technique='Coq proof over translator-regenerated kernel + differential correspondence',
     ref='5.11',
 )
